@@ -12,6 +12,11 @@ CLAIMED = {
         note=PROOF_NOTE + "file-system resolution of library names and serde_yaml are outside the model.",
         technique="Lean 4 theorems over an association-list model of extend (C15_lookup, C15_base_chain, C15_versions) + model/implementation correspondence run",
         design="§4 C15"),
+    "C16": dict(
+        text="Machine-checked proof that the dialect set computed by the model of lua_version() is exactly the union of the declared versions (5.1 when none), that a dialect-gated construct is accepted iff an enabling dialect is declared, and - by `decide` over a table regenerated from default_std/*.yml on every run - that each built-in library enables the dialect it is named after and those of all its ancestors; tied to the code by differential runs incl. the real full_moon parser on a construct matrix.",
+        note=PROOF_NOTE + "parser acceptance itself is full_moon's (assumed `construct parses iff an enabling dialect is on`, validated on the matrix only); translator for the std headers is regex-based and trusted.",
+        technique="Lean 4 theorems (C16_union, C16_accepts, C16_builtin by decide over a regenerated table) + correspondence with lua_version() and full_moon::parse_fallible",
+        design="§4 C16"),
 }
 
 ALL = [f"C{i:02d}" for i in range(1, 21)]
